@@ -134,7 +134,7 @@ func dialogue(svc string, r *rnd) [][]byte {
 	case "ftp":
 		d := [][]byte{bs("USER anonymous\r\n"), bs("PASS anonymous\r\n")}
 		cmds := []string{"SYST", "PWD", "CWD a", "CDUP", "TYPE I", "LIST", "NLST", "RETR a", "STOR b", "MKD d", "DELE x", "RNFR a", "RNTO b", "SIZE a", "MDTM a",
-			"PORT 127,0,0,1,0,1", "PORT 1,2", "EPRT |1|127.0.0.1|1|", "EPRT |", "EPSV", "OPTS UTF8 ON", "FEAT", "NOOP", "REST 5", "APPE c", "ALLO 1", "MODE S", "STRU F", "AUTH TLS", "PBSZ 0", "PROT P", "STAT", "XYZZY"}
+			"PORT 127,0,0,1,0,1", "PORT 1,2", "PORT x", "EPRT |1|127.0.0.1|1|", "EPRT |", "EPRT |1|", "PASV", "PASV", "EPSV", "OPTS UTF8 ON", "FEAT", "NOOP", "REST 5", "APPE c", "ALLO 1", "MODE S", "STRU F", "AUTH TLS", "PBSZ 0", "PROT P", "STAT", "XYZZY"}
 		for i, n := 0, r.Range(1, 5); i < n; i++ {
 			d = append(d, bs(r.PickStr(cmds)+"\r\n"))
 		}
@@ -386,7 +386,7 @@ func sshScenario(hr *hx.Rand) Scenario {
 	sc := Scenario{Svc: "ssh-simulator", Proto: "tcp", Kind: "ssh", Linger: 150}
 	in := &SSHIn{}
 	for i, n := 0, r.Range(1, 3); i < n; i++ {
-		ty := r.PickStr([]string{"env", "env", "exec", "exec", "pty-req", "subsystem", "tcpip-forward", "x11-req"})
+		ty := r.PickStr([]string{"env", "env", "exec", "exec", "pty-req", "subsystem", "tcpip-forward", "x11-req", "shell"})
 		var p []byte
 		switch r.Intn(6) {
 		case 0:
@@ -446,9 +446,9 @@ func corpus() []Scenario {
 		tcp("redis", "corpus-redis-empty-array", 0, bs("*0\r\n")),
 		tcp("smtp", "corpus-smtp-bdat-no-arg", 0, bs("EHLO a\r\nMAIL FROM:<a>\r\nBDAT\r\n")),
 		tcp("adb", "corpus-adb-short-cnxn", 0, bs("CNXN")),
-		tcp("ftp", "corpus-ftp-stor-without-data-connection", 0, bs("USER anonymous\r\nPASS x\r\nSTOR a\r\n")),
-		tcp("ftp", "corpus-ftp-list-without-data-connection", 0, bs("USER anonymous\r\nPASS x\r\nLIST\r\n")),
-		tcp("ftp", "corpus-ftp-cwd-after-login", 0, bs("USER anonymous\r\nPASS x\r\nCWD a\r\nCDUP\r\nQUIT\r\n")),
+		tcp("ftp", "corpus-ftp-stor-without-data-connection", 0, bs("USER anonymous\r\nPASS anonymous\r\nSTOR a\r\n")),
+		tcp("ftp", "corpus-ftp-list-without-data-connection", 0, bs("USER anonymous\r\nPASS anonymous\r\nLIST\r\n")),
+		tcp("ftp", "corpus-ftp-cwd-after-login", 0, bs("USER anonymous\r\nPASS anonymous\r\nCWD a\r\nCDUP\r\nQUIT\r\n")),
 		tcp("ipp", "corpus-ipp-unknown-value-tag", 0, httpReq("POST", "/", "application/ipp", cat(ippHdr, []byte{1, 0x30, 0, 1, 'a', 0, 1, 'b', 3}))),
 		tcp("ldap", "corpus-ldap-negative-length", 0, []byte{0x04, 0x88, 0xff, 0xff, 0xff, 0xff, 0xff, 0xff, 0xff, 0xff}),
 		udp("snmp", "corpus-snmp-length-2^56", []byte{0x30, 0x88, 0x01, 0, 0, 0, 0, 0, 0, 0}),
@@ -468,6 +468,10 @@ func corpus() []Scenario {
 		tftpRace,
 		tftpConcurrent(&rnd{hx.NewRand(11)}, "corpus-tftp-concurrent-wrq-data", 32, 299, false),
 		tftpConcurrent(&rnd{hx.NewRand(12)}, "corpus-tftp-concurrent-mixed", 48, 199, true),
+		tcp("ftp", "corpus-ftp-port-too-few-numbers", 0, bs("USER anonymous\r\nPASS anonymous\r\nPORT 1,2\r\n")),
+		tcp("ftp", "corpus-ftp-eprt-too-few-fields", 0, bs("USER anonymous\r\nPASS anonymous\r\nEPRT |1|\r\n")),
+		// telnet: ESC followed by 255 bytes that never end the sequence fills the terminal's input buffer
+		tcp("telnet", "corpus-telnet-escape-fills-input-buffer", 100, bs("root\r\npw\r\n"), cat([]byte{0x1b}, bs(strings.Repeat("0", 255))), bs("ls\r\n")),
 		// stalls without allocation (reported as tag, not a C01 violation)
 		udp("echo", "corpus-udp-echo-spins", bs("hi")),
 		udp("ntp", "corpus-udp-ntp-spins", make([]byte, 48)),
